@@ -151,7 +151,7 @@ def subject_choices(ns, max_s=3, antichain=True, exclude=()):
 
 def renamed_graph(ns, I, naming: str):
     """(ns, I) with every dotted component mapped through the named injective renaming."""
-    m = NAMINGS[naming]
+    m = NAMING_SELFPREFIX if naming == "selfprefix" else NAMINGS[naming]
     if not m:
         return list(ns), list(I)
     return [rename(n, m) for n in ns], [(rename(a, m), rename(b, m)) for a, b in I]
@@ -195,7 +195,9 @@ NAMING_UNICODE = {
     "q": "b",
 }
 # children repeat the name of their parent / of the root: r.r, r.ra, r.r.r ... (a child's own name
-# starts with the text of the package that contains it)
+# starts with the text of the package that contains it).  Not injective on components (r and a
+# both become r), hence not part of NAMINGS, which the renaming-invariance check C14 iterates over;
+# full dotted names stay distinct, which is all the model-based checks need.
 NAMING_SELFPREFIX = {
     "r": "r",
     "a": "r",
@@ -208,7 +210,6 @@ NAMING_SELFPREFIX = {
 }
 NAMINGS = {
     "identity": {},
-    "selfprefix": NAMING_SELFPREFIX,
     "plain": NAMING_PLAIN,
     "adversarial": NAMING_ADVERSARIAL,
     "unicode": NAMING_UNICODE,
